@@ -334,7 +334,8 @@ def fam_history(w: World) -> None:
             seen.append(i)
         items = [mk(i) for i in ids]
         # extend() takes any iterable of messages: a list, a tuple, or a one-shot generator / iterator
-        form = ch.choice(['list', 'tuple', 'generator', 'iterator'], 'extend.form') if op[0] == 'extend' else 'one'
+        form = ch.choice(['list', 'tuple', 'generator', 'iterator', 'lenient_batch'], 'extend.form') if op[0] == 'extend' \
+            else 'one'
         if op[0] == 'extend':
             op = ('extend', ids, form)
             ops[-1] = op
@@ -343,8 +344,14 @@ def fam_history(w: World) -> None:
             if op[0] == 'append':
                 batch.append(items[0])
             else:
-                batch.extend(items if form == 'list' else tuple(items) if form == 'tuple' else
-                             (x for x in items) if form == 'generator' else iter(items))
+                if form == 'lenient_batch':
+                    # the messages come in another batch object, one that was built without id checks
+                    source = type(batch)(strict=False)
+                    source.extend(items)
+                    batch.extend(source)
+                else:
+                    batch.extend(items if form == 'list' else tuple(items) if form == 'tuple' else
+                                 (x for x in items) if form == 'generator' else iter(items))
             ok = True
         except IdentityError:
             ok = False
